@@ -8,7 +8,7 @@
         of the caller's object at [l]) by container kind;
       - every storing site of a detector puts a [datum] into the detector state (NNDVI.reference_batch,
         HDDDM/CDBD.reference, kdq-tree _ref_data / ref_data, PCACD windows, the elements of
-        CUSUM._stream, MD3.reference_batch_features / reference_batch_target / oracle_data);
+        CUSUM._stream and PageHinkley._change_scores, MD3.reference_batch_features / reference_batch_target / oracle_data);
       - later outputs are [out : state -> heap -> observation], which DEREFERENCES views: a view
         shows whatever the caller's cell holds at that moment;
       - between calls the caller may overwrite its cells ([EWrite]) and create objects ([EAlloc]);
@@ -17,8 +17,8 @@
 
     The facts about numpy / pandas memory behaviour and about the code that decide Copy-or-View are
     collected in the record [code]; [current] describes the tree under verification, [pre_S13] the
-    tree before commit e5126c7 (validation returned X.values).  The View constructor and the
-    switches are kept so that the old defect and mutants are expressible.  Whether numpy / pandas
+    tree before commit e5126c7 (validation returned X.values), [pre_md3_fix] the tree before MD3 copied
+    the first labelled sample.  The View constructor and the switches are kept so that the old defect and mutants are expressible.  Whether numpy / pandas
     really behave as [code] says is not something Coq can exhibit: harness/c15.py measures it with
     np.shares_memory at every site on every run (claim PARTIAL).
 
@@ -55,19 +55,20 @@ Definition values_is_view (k : kind) : bool := match k with KDFOne => true | _ =
 Record code := mkCode {
   df_validate_copies : bool;    (* detector.py: [ary = np.array(X.values)] (true) / [ary = X.values] (false, before S13) *)
   df_ctor_copies : bool;        (* pandas >= 3: [pd.DataFrame(ndarray)] copies the array (true) / wraps it (false) *)
-  md3_oracle_copies : bool;     (* md3.py give_oracle_label: a copy of labeled_sample is kept (true) /
-                                   [self.oracle_data = labeled_sample], the caller's object itself (false) *)
+  md3_oracle_copies : bool;     (* md3.py give_oracle_label: [labeled_sample.copy()] is kept (true) /
+                                   [self.oracle_data = labeled_sample], the caller's object itself (false, before the fix) *)
   inj_preprocess_copies : bool; (* injector.py _preprocess: [copy = np.copy(data)] (true) / works on data itself (false) *)
   inj_dict_copies : bool        (* label_manipulation.py: works on a copy of class_probabilities (true) / on the caller's dict (false, S14a) *)
 }.
 
-(** the tree under verification.  md3.py:293 still stores the caller's DataFrame itself; set the
-    third field to [true] once that line copies (then C15_md3_oracle_site_* below apply to it). *)
-Definition current : code := mkCode true true false true true.
-(** before commit e5126c7 (S13) *)
+(** the tree under verification: every site copies *)
+Definition current : code := mkCode true true true true true.
+(** before commit e5126c7 (S13): validation returned X.values *)
 Definition pre_S13 : code := mkCode false true false true true.
-(** every site copies *)
-Definition repaired : code := mkCode true true true true true.
+(** before the commit "fix: MD3 stores a copy of the first labeled sample instead of the caller's DataFrame":
+    md3.py give_oracle_label did [self.oracle_data = labeled_sample] *)
+Definition pre_md3_fix : code := mkCode true true false true true.
+Definition repaired : code := current.
 
 (** where the object assigned to an attribute comes from *)
 Inductive origin :=
@@ -449,8 +450,9 @@ Definition scalar_detector : detector :=
     slot 0 = reference_batch_features, 1 = reference_batch_target, 2 = oracle_data.
     set_reference: both attributes are [copy.deepcopy(X.loc[:, ...])].
     update: [X.to_numpy()[0]] is used and dropped.
-    give_oracle_label: [if self.oracle_data is None: self.oracle_data = labeled_sample
-                        else: self.oracle_data = pd.concat([self.oracle_data, labeled_sample])];
+    give_oracle_label: [if self.oracle_data is None: self.oracle_data = labeled_sample.copy()
+                        else: self.oracle_data = pd.concat([self.oracle_data, labeled_sample])]
+                       (before the fix: [self.oracle_data = labeled_sample], the caller's object, [SArg]);
     when enough rows are there: [self.set_reference(self.oracle_data, ...); self.oracle_data = None]. *)
 Variables md3_feat md3_targ : value -> value.
 Variable md3_ref : P -> value -> P.
